@@ -122,6 +122,13 @@ def _sampler(tp, dom, s):
     """s = {"where": inner|xbound|t0, "n": [n1, n2], "static": bool}"""
     Ix, It = dom
     n1, n2 = s["n"]
+    if s.get("random"):
+        # draws from the GLOBAL torch RNG at every call (non-static) or at its first call (static); both runs reseed
+        # the global RNG identically at the start of every training step (spec "reseed")
+        smp = tp.samplers.RandomUniformSampler(Ix * It, n_points=n1 * n2)
+        if s.get("static", False):
+            smp = smp.make_static()
+        return smp
     if s["where"] == "inner":
         a, b = tp.samplers.GridSampler(Ix, n1), tp.samplers.GridSampler(It, n2)
     elif s["where"] == "xbound":
@@ -178,8 +185,11 @@ def _condition(tp, w, c, name):
         kw = dict(par)
         if c["res"] == "r_datafn":
             kw["data_functions"] = {"f": _data_f}
-        return tp.conditions.PINNCondition(model, _sampler(tp, (w.Ix, w.It), c["sampler"]), res[c["res"]],
-                                           name=name, weight=wt, **kw)
+        if c.get("sampler_of") is not None:
+            smp = w.train[c["sampler_of"]].sampler          # the very sampler object of a training condition
+        else:
+            smp = _sampler(tp, (w.Ix, w.It), c["sampler"])
+        return tp.conditions.PINNCondition(model, smp, res[c["res"]], name=name, weight=wt, **kw)
     if kind == "adaptive":
         kw = dict(par)
         if c["res"] == "r_datafn":
@@ -215,7 +225,8 @@ def _condition(tp, w, c, name):
         return tp.conditions.ParameterCondition(p, pen, weight=wt, name=name)
     if kind == "pideeponet":
         return tp.conditions.PIDeepONetCondition(model, model._c07_fset, _sampler(tp, (w.Ix, w.It), c["sampler"]),
-                                                 res[c["res"]], name=name, weight=wt)
+                                                 res[c["res"]], name=name, weight=wt,
+                                                 track_gradients=c.get("track_gradients", True))
     if kind == "recording":
         RC = recording_condition_class()
         return RC(model, _sampler(tp, (w.Ix, w.It), c["sampler"]), name, weight=wt,
@@ -255,6 +266,13 @@ def build(spec):
     w.train = build_conditions(w, spec["conds"], "c")
     w.val = build_conditions(w, spec.get("vals", []), "v")
     return w
+
+
+def reseed_base(spec, stage):
+    """seed of the global torch RNG at the start of step 0 of a stage (None: the world does not reseed)"""
+    if not spec.get("reseed"):
+        return None
+    return (int(spec["seed"]) + 7919 * (stage + 1)) % (2**31 - 1)
 
 
 def world_learnables(w):
